@@ -109,6 +109,15 @@ def materialise(case):
     cid = pyenv.rbytes(rng, 16)
     keys = NB.derive_keys(blob, otp_dec, otp_enc, case['dev'])
     ctr, ctr_twl = NB.counters(cid)
+    wrap_at = None
+    if case['cid_mode'] == 'withheld' and case['dseed'] % 2 == 0:
+        # nobody gives the reader the CID, so the counter is whatever the image was encrypted with: one whose low 64 bits run out inside
+        # the CTRNAND partition (the carry into the upper half falls in the middle of the data)
+        for fs, cr, o, sz in case['table']:
+            if (NB.kind_of(fs, cr) or '').startswith('ctr') and sz * 0x200 > 0x8000:
+                wrap_at = o * 0x200 + 0x4000 + 16 * rng.randrange(0, 16)
+                ctr = (rng.getrandbits(63) << 64) | ((1 << 64) - wrap_at // 16)
+                break
     ess = None
     if case['essential']:
         files = [('nand_hdr', b'\x11' * 0x200)]
@@ -129,5 +138,5 @@ def materialise(case):
         kw['otp'] = otp_enc
     if case['cid_mode'] == 'given':
         kw['cid'] = cid
-    truth = dict(cid=cid, otp_dec=otp_dec, otp_enc=otp_enc, keys=keys, ctr=ctr, ctr_twl=ctr_twl)
+    truth = dict(cid=cid, otp_dec=otp_dec, otp_enc=otp_enc, keys=keys, ctr=ctr, ctr_twl=ctr_twl, wrap_at=wrap_at)
     return img, info, spec, kw, truth
